@@ -1095,6 +1095,10 @@ pub fn run(tier: Tier) -> i32 {
       *kinds.entry(k).or_insert(0) += v;
     }
   }
+  run.sample(json!({"text": "r = a:1", "derivable": g.derives("r = a:1"), "parser_accepts": cddl::cddl_from_str("r = a:1", false).is_ok()}));
+  run.sample(json!({"text": texts.get(n_raw / 2).cloned().unwrap_or_default(), "family": "symbol sequences"}));
+  run.sample(json!({"text": ms.get(ms.len() / 3).cloned().unwrap_or_default(), "family": "single-character edits"}));
+  run.sample(json!({"text": hd.get(hd.len() / 2).map(|h| h.0.clone()).unwrap_or_default(), "family": "rule heads", "expected_heads": hd.get(hd.len() / 2).map(|h| format!("{:?}", h.1))}));
   run.states = n + mirror_n;
   run.transitions = n + mirror_n;
   run.traces = n + mirror_n;
